@@ -10,7 +10,7 @@ func init() {
 		// kernel half: well-formedness of the transmitted reply and its agreement
 		// with the map contents (specifications /verif/spec/bpf/dhcp_reply.vspec and
 		// dhcp_reply_ihl.vspec); memory safety / pass-unmodified of the same program is C07
-		BPFKinds: "reply_wf,reply_wf_any_ihl,reply_wf_ihl6",
+		BPFKinds: "reply_wf,reply_wf_any_ihl,reply_wf_ihl6,reply_wf_vlan1,reply_wf_vlan2",
 		Undecided: []string{
 			"equality of the reply with what the userspace DHCP server would send for the same request (comparison with the Go code in pkg/dhcp: option set and order, T1/T2, broadcast/unicast choice, relay handling): not decided here; the kernel half only shows that every value in the reply is the specified function of the frame and of the map value bytes (pool_assignment, ip_pool, dhcp_server_config)",
 			"'for cached leases only' beyond the lookups themselves: that the control plane removes / expires the map entries when a lease ends is the Go side (C16: release paths call the Remove* loaders); the fast path's own lease_expiry test against bpf_ktime_get_ns is executed symbolically but no wall-clock relation between the two clocks is claimed",
